@@ -240,7 +240,10 @@ def gen_histories(rng, n, maxlen, par_weight=2, zero_weight=1):
                 cls = b'compile' if rng.chance(5, 6) else rng.choice(CLASSES[1:] + [b'msvc_nc', b'msvc_nc'])
                 cc = rng.weighted([(b'default', 7), (b'recache', 2), (b'nocache', 2)])
                 f = rand_faults(rng) if rng.chance(1, 2) else list(NOF)
-                ok = 0 if (rng.chance(1, 25) and f[3] not in DURING) else 1
+                # (an MSVC request has TWO outputs, obj and pdb, extracted in HashMap order: with a missing output
+                # directory the real code's error class — fatal error vs. read-error miss — depends on that order,
+                # so this combination has no deterministic observation and is not generated)
+                ok = 0 if (rng.chance(1, 25) and f[3] not in DURING and cls != b'msvc_nc') else 1
                 steps.append(req(t, cls, cc, ok, f))
                 if cls == b'compile':
                     seen.add(t)
